@@ -65,8 +65,35 @@ func (s State) String() string {
 // complete.
 type Manager struct {
 	state   State
-	wg      sync.WaitGroup
 	wgCount int32
+
+	// routines counts the goroutines launched by GoFunc that have not finished
+	// yet. It is not a sync.WaitGroup: GoFunc keeps being called (by the
+	// background worker, for incoming RPCs) while Suspend or Shutdown are
+	// waiting, and a WaitGroup panics ("WaitGroup is reused before previous
+	// Wait has returned") when an Add races with the return of a Wait.
+	routinesLock sync.Mutex
+	routinesDone *sync.Cond
+	routines     int
+	// idleCount is incremented every time the number of unfinished goroutines
+	// drops to zero. As with a WaitGroup, WaitRoutines returns once that has
+	// happened, even if new goroutines were launched in the meantime.
+	idleCount uint64
+}
+
+// addRoutines adjusts the number of unfinished goroutines and wakes up
+// WaitRoutines when it reaches zero.
+func (b *Manager) addRoutines(delta int) {
+	b.routinesLock.Lock()
+	defer b.routinesLock.Unlock()
+	if b.routinesDone == nil {
+		b.routinesDone = sync.NewCond(&b.routinesLock)
+	}
+	b.routines += delta
+	if b.routines <= 0 {
+		b.idleCount++
+		b.routinesDone.Broadcast()
+	}
 }
 
 // GetState returns the current state.
@@ -86,17 +113,27 @@ func (b *Manager) SetState(s State) {
 func (b *Manager) GoFunc(f func()) {
 	tempWgCount := atomic.LoadInt32(&b.wgCount)
 	if tempWgCount < WGLIMIT {
-		b.wg.Add(1)
+		b.addRoutines(1)
 		atomic.AddInt32(&b.wgCount, 1)
 		go func() {
-			defer b.wg.Done()
+			defer b.addRoutines(-1)
 			atomic.AddInt32(&b.wgCount, -1)
 			f()
 		}()
 	}
 }
 
-// WaitRoutines waits for all the goroutines in the waitgroup.
+// WaitRoutines waits until none of the goroutines launched by GoFunc is
+// running.
 func (b *Manager) WaitRoutines() {
-	b.wg.Wait()
+	b.routinesLock.Lock()
+	defer b.routinesLock.Unlock()
+	if b.routinesDone == nil {
+		b.routinesDone = sync.NewCond(&b.routinesLock)
+	}
+	if b.routines > 0 {
+		for seen := b.idleCount; b.idleCount == seen; {
+			b.routinesDone.Wait()
+		}
+	}
 }
